@@ -6,7 +6,7 @@ root = os.path.dirname(os.path.dirname(os.path.abspath(__file__)))
 out = subprocess.run([os.path.join(root, "tools", "run_seeded.sh")], capture_output=True, text=True).stdout
 live = {}
 for line in out.splitlines():
-    m = re.match(r"(\S+): (DETECTED|MISSED) by (C\d+):? ?(.*)", line)
+    m = re.match(r"(\S+): (DETECTED|MISSED|FAILS-CLOSED) (?:by|in) (C\d+):? ?(.*)", line)
     if m:
         live.setdefault(m.group(1), []).append((m.group(2), m.group(3), m.group(4).strip()))
 rows = ["| id | change | needs to manifest | caught by (rules firing today) | history |", "|---|---|---|---|---|"]
@@ -17,15 +17,22 @@ for meta in sorted(glob.glob(os.path.join(root, "seeded", "*", "meta.json"))):
         continue
     n += 1
     tag = m["id"]
-    det = "; ".join((f"**MISSED by {c}**" if s == "MISSED" else r) for s, c, r in live.get(tag, [])) or "?"
+    det = "; ".join((f"**MISSED by {c}**" if s == "MISSED" else f"none - {c} ends in ANALYSIS-ERROR (fails closed)" if s == "FAILS-CLOSED" else r)
+                    for s, c, r in live.get(tag, [])) or "?"
     hist = m.get("detection", "")
-    first = "missed at first" if re.search(r"initially (MISSED|exit 2)", hist) else "caught as built"
-    if first != "caught as built":
+    first = ("not decided" if m.get("expected") == "analysis-error" else
+             "missed at first" if re.search(r"initially (MISSED|exit 2)|[Mm]issed at first|missed by C\d\d at first|first ended in an analysis error|"
+                                            r"first fired only because|first fired as", hist) else "caught as built")
+    if first == "missed at first":
         miss0 += 1
+    if first == "not decided":
+        undecided = globals().get("undecided", 0) + 1
     esc = lambda t: t.replace("|", "\\|").replace("\n", " ")
     rows.append(f"| {tag} | {esc(m['change'])[:230]} | {esc(m.get('needs_to_manifest', ''))[:170]} | {esc(det)} | {first} |")
 rows.append("")
-rows.append(f"{n} seeded changes; {n - miss0} caught by the rules as they stood when the change arrived, {miss0} missed at first "
+und = globals().get("undecided", 0)
+rows.append(f"{n} seeded changes; {n - miss0 - und} caught by the rules as they stood when the change arrived, {miss0} missed at first and "
+            f"caught after a rule was added or corrected, {und} not decided (the check fails closed with ANALYSIS-ERROR) "
             f"(details in each `seeded/<id>/meta.json`, field `detection`).")
 p = os.path.join(root, "DESIGN.md")
 s = open(p).read()
